@@ -95,6 +95,23 @@ Steps:
 5. If a contract clause fails, FIX YOUR EDIT (not the check). Regenerate feature.diff at the end.
 6. Reply with a numbered list of the edits (function: what changed observably, and why the contract still holds), and the commands run with outcomes. Leave feature.diff and contract_check.py in {wt}; do not commit. Never call devices.FIBER without a `timeout` wrapper and small inputs.{extra}'''
 
+SMALL_TMPL = '''You are helping test a verification tool for OVER-SPECIFICATION (alarms on code that still satisfies its contract). Work ONLY inside the git worktree {wt} (a checkout of the Python library "opticomlib"). Do not read or write anything under /verif or /repo.
+
+The CONTRACT of the code you will touch is the following list of semantic properties. They - and nothing else - must stay true:
+
+{props}
+
+Your job: produce FIVE SEPARATE, SMALL, realistic commits (each 3-25 changed lines, each independent of the others, each applied to the pristine checkout) to these functions in {file}: {funcs}. Each commit DOES change observable behaviour somewhere, but never in a way that makes any clause of the contract false for any input in its quantified domain. Everything the contract does not constrain is free. Make the five commits of DIFFERENT kinds, chosen from:
+ (a) a new optional parameter that changes behaviour only when passed; (b) accepting an additional input kind or an additional spelling of an option value; (c) a changed warning/error message, an extra warning, or a different exception type where the contract does not name the type; (d) an extra attribute on a returned object / extra key in a returned dict; (e) additional validation that rejects inputs OUTSIDE the contract's quantified domain; (f) a different numerical resolution or method where the contract states a tolerance (e.g. a finer search grid) - only if the contract's bound provably still holds; (g) a changed default of a parameter the contract does not fix; (h) a small bug fix for inputs outside the contract's domain (e.g. NaN handling, empty input).
+Keep the code clean and plausible (Python 3.12); no comments that announce the purpose; do not touch tests; the existing tests must still pass with each commit.
+
+Steps, for k = 1..5:
+1. Start from the pristine code: cd {wt} && git checkout -- opticomlib
+2. Make commit k's edit, save it: cd {wt} && git diff -- opticomlib > {wt}/small_{{k}}.diff  (3-25 changed lines).
+3. Check it: write (once, reuse for all five) {wt}/contract_check.py that checks every clause of the contract you could have affected on many sampled inputs from the quantified domain (fixed seeds; exact where the contract is exact, stated tolerances otherwise), prints PASS / exits 0 when all hold, prints the failing clause / exits 1 otherwise; it must import `opticomlib` from PYTHONPATH (remove the script's own directory from sys.path[0]). Run: cd {wt} && MPLBACKEND=Agg OMP_NUM_THREADS=1 PYTHONPATH={wt} timeout 600 /venv/bin/python contract_check.py -> PASS, and the existing tests: cd {wt} && MPLBACKEND=Agg PYTHONPATH={wt} timeout 900 /venv/bin/python -m pytest -q -p no:cacheprovider --timeout=900 tests (expect 49 passed). If a clause fails, fix the edit.
+Finally `git checkout -- opticomlib` and run contract_check.py once on the pristine code too (must PASS; features that do not exist there are skipped).
+Reply with, for each k: the function, what changes observably, why the contract still holds, and the commands run with outcomes. Leave small_1.diff .. small_5.diff and contract_check.py in {wt}; do not commit. Never call devices.FIBER without a `timeout` wrapper and small inputs.{extra}'''
+
 NEUTRAL_TMPL = '''You are helping test a static-analysis tool for false alarms. Work ONLY inside the git worktree {wt} (a checkout of the Python library "opticomlib"). Do not read or write anything under /verif or /repo.
 
 Your job: REFACTOR the following functions WITHOUT changing their behaviour in any way: in {file}: {funcs}.
@@ -142,6 +159,13 @@ def main():
             prev = "; ".join(f"({n}) {needs}" for n, needs in seeds.get(pid, [])) or "(none)"
             open(f'{d}/prompt_{pid}.txt', 'w').write(SEED_TMPL.format(wt=wt, id=pid, title=p['title'], statement=p['statement'], quant=p['quantifier']['text'],
                                                                      context=BASE_CONTEXT if base else "", prev=prev, steer=steer, extra=LAB_NOTE if pid == "C20" else ""))
+    elif kind == "small":
+        props = {json.loads(l)['id']: json.loads(l) for l in open('/verif/properties.jsonl')}
+        for g, (f, fu) in GROUPS.items():
+            wt = f'{d}/{g}'
+            worktree(wt)
+            txt = "\n\n".join(f"[{pid}] {props[pid]['title']}\nSTATEMENT: {props[pid]['statement']}\nQUANTIFIED OVER: {props[pid]['quantifier']['text']}" for pid in GROUP_PROPS[g])
+            open(f'{d}/prompt_{g}.txt', 'w').write(SMALL_TMPL.format(wt=wt, file=f, funcs=fu, props=txt, extra=LAB_NOTE if g == "lab" else ""))
     elif kind == "feature":
         props = {json.loads(l)['id']: json.loads(l) for l in open('/verif/properties.jsonl')}
         for g, (f, fu) in GROUPS.items():
